@@ -249,6 +249,7 @@ package shimagent
 //@     invariant forall(j, 0 <= j && j <= rangeindex, blobid(iface(agentKeys[j])) != blobid(cert.Key))
 //@     invariant forall(j, 0 <= j && j < len(agentKeys), agentKeys[j] != nil) && cert.Key != nil
 //@     invariant mapdom(s.certs) == old(mapdom(s.certs)) && mapval(s.certs) == old(mapval(s.certs))
+//@     invariant inv2(s)
 
 //@ # ---------------------------------------------------------------- C09 / C07 / C11: listings
 //@ import agent "golang.org/x/crypto/ssh/agent"
